@@ -134,6 +134,7 @@ def run_spec(spec, ctx):
 
     def make_exe(**kw):
         e = Executor(ctx.funcs, enums=ctx.enums, **kw)
+        e.mir_text = ctx.text
         exe_holder.setdefault("exes", []).append(e)
         return e
 
@@ -204,7 +205,9 @@ def run_spec(spec, ctx):
         "result": status, "detail": detail, "findings": fl, "unsupported": unsupported[:10],
         "paths": sum(e.stats.paths for e in exes), "blocks_executed": sum(e.stats.blocks for e in exes),
         "queries": sum(e.stats.queries for e in exes), "solver_s": round(sum(e.stats.solver_s for e in exes), 3),
-        "obligations": obligations, "discharged": discharged, "cross_check_cvc5": cross,
+        "obligations": obligations + sum(e.trivial_obligations for e in exes),
+        "discharged": discharged + sum(e.trivial_obligations for e in exes),
+        "obligations_decided_by_simplification": sum(e.trivial_obligations for e in exes), "cross_check_cvc5": cross,
         "decided_by": _merge_counts([e.stats.decided_by for e in exes]),
         "summaries_used": sorted(set().union(*[e.stats.summaries for e in exes])) if exes else [],
         "havoc_calls": sorted(set().union(*[e.stats.havoc for e in exes])) if exes else [],
@@ -500,6 +503,464 @@ def replay_into_cells(fd, vals, info):
     return {"harness": "m_into_cells", "values": v}
 
 
+# ----------------------------------------------------------------------------
+# SPEC: render_table_tree (whole function): column estimation, allocation, shrink loop
+# ----------------------------------------------------------------------------
+
+def _agg(ctx, struct, **kw):
+    names = ctx.structs[struct]
+    fields = []
+    for n in names:
+        fields.append(kw[n] if n in kw else VOpaque(n, "%s.%s" % (struct, n)))
+    return VAgg(struct, None, fields, names)
+
+
+def _estimate(ctx, size, minw, prefix=None):
+    return _agg(ctx, "SizeEstimate", size=size, min_width=minw,
+                prefix_size=prefix if prefix is not None else VInt(u64(0), 64, False))
+
+
+def _table_cell(ctx, tag, colspan, est):
+    some = VAgg("Option::Some", "Some", [est])
+    return _agg(ctx, "RenderTableCell", colspan=colspan, size_estimate=VAgg("Cell", None, [some]),
+                col_width=VAgg("Option::None", "None", []), content=VOpaque("content", tag + ".content"))
+
+
+def _renderer(ctx, exe, width, raw, draw_borders):
+    opts = _agg(ctx, "RenderOptions", raw=raw, draw_borders=draw_borders)
+    sub = _agg(ctx, "SubRenderer", width=width, options=opts)
+    tr = VOpaque("TextRenderer<D>", "renderer")
+    exe.cell_n += 1
+    cid = "cell%d" % exe.cell_n
+    exe.global_cells[cid] = sub
+    tr.memo["#top"] = VRef("cell", cid)
+    return VRef("val", tr)
+
+
+def _run_table(ctx, make_exe, shape, max_size, max_width, post_fn, loop_bound=40):
+    """shape: list of rows, each a list of colspans (python ints). Cell estimates symbolic."""
+    f = the(ctx.find(r"^render_table_tree$"), "render_table_tree")
+    ncols = max(sum(r) for r in shape)
+    exe = make_exe(inline=[r"RenderTable::rows$", r"RenderTableRow::cells$", r"RenderTableCell::get_size_estimate$",
+                           r"SizeEstimate::max$", r"<SizeEstimate as Default>::default$",
+                           r"<SubRenderer<D> as Renderer>::width$"],
+                   loop_bound=loop_bound, timeout_ms=20000)
+    st = State()
+    width = exe.fresh("usize", "width")
+    raw = exe.fresh("bool", "raw")
+    borders = exe.fresh("bool", "draw_borders")
+    st.pc += [z3.ULE(width.e, u64(max_width))]
+    cells_meta = []
+    rows = []
+    for ri, row in enumerate(shape):
+        cells = []
+        for ci, span in enumerate(row):
+            size = exe.fresh("usize", "r%dc%d.size" % (ri, ci))
+            minw = exe.fresh("usize", "r%dc%d.min" % (ri, ci))
+            st.pc += [z3.ULE(size.e, u64(max_size)), z3.ULE(minw.e, size.e)]
+            cells.append(_table_cell(ctx, "r%dc%d" % (ri, ci), VInt(u64(span), 64, False), _estimate(ctx, size, minw)))
+            cells_meta.append((ri, ci, span, size, minw))
+        rows.append(_agg(ctx, "RenderTableRow", cells=VVec(cells), col_sizes=VAgg("Option::None", "None", [])))
+    table = _agg(ctx, "RenderTable", rows=VVec(rows), num_columns=VInt(u64(ncols), 64, False))
+    import summaries
+    orig = summaries.summarize
+
+    def summ(exe_, st_, f_, bb_, callee, args, dest_ty):
+        c = callee.strip()
+        if re.search(r"as Renderer>::(start_block|add_horizontal_border_width)$", c):
+            return [(st_, VAgg("Result::Ok", "Ok", [VUnit()]))]  # rendering the block start succeeds
+        if re.search(r"RenderTable::into_rows$", c):
+            return [(st_, VOpaque("Vec<RenderNode>", "rows_out"))]
+        return orig(exe_, st_, f_, bb_, callee, args, dest_ty)
+    summaries.summarize = summ
+    try:
+        outs = exe.run(f.name, {1: _renderer(ctx, exe, width, raw, borders), 2: table, 3: VOpaque("&mut T", "err_out")}, st)
+    finally:
+        summaries.summarize = orig
+    n_checked = 0
+    for (s2, ret) in outs:
+        calls = [c for c in s2.calls if re.search(r"RenderTable::into_rows$", c[0])]
+        if len(calls) != 1:
+            post(exe, s2, z3.BoolVal(False), f.name, "render_table_tree hands the column widths to into_rows exactly once")
+            continue
+        _, cargs, _, _ = calls[0]
+        cols, vert = cargs[1], cargs[2]
+        if not isinstance(cols, VVec) or not isinstance(vert, VBool):
+            raise Inconclusive("could not recover column widths / layout flag")
+        n_checked += 1
+        post_fn(exe, s2, f, cols, vert, width, raw, cells_meta, ncols, shape)
+    if n_checked == 0:
+        raise Inconclusive("no path reached into_rows")
+    return {"function": f.name, "paths": len(outs), "shape": str(shape)}
+
+
+def _post_table(exe, s2, f, cols, vert, width, raw, cells_meta, ncols, shape):
+    ws = [c.e for c in cols.elems]
+    post(exe, s2, z3.BoolVal(len(ws) == ncols), f.name, "one width per column")
+    # per-column estimates as the function is documented to compute them: max over rows of the cell's share
+    col_size = [u64(0)] * ncols
+    col_min = [u64(0)] * ncols
+    for (ri, ci, span, size, minw) in cells_meta:
+        start = sum(shape[ri][:ci])
+        for k in range(start, start + span):
+            sh = z3.UDiv(size.e, u64(span))
+            mh = z3.UDiv(minw.e, u64(span))
+            col_size[k] = z3.If(z3.UGT(sh, col_size[k]), sh, col_size[k])
+            col_min[k] = z3.If(z3.UGT(mh, col_min[k]), mh, col_min[k])
+    min_size = u64(ncols - 1)
+    for m in col_min:
+        min_size = min_size + m
+    want_vert = z3.Or(raw.e, z3.UGT(min_size, width.e), width.e == 0)
+    post(exe, s2, vert.e == want_vert, f.name, "stacked layout iff raw mode or the minimum widths do not fit")
+    total = u64(ncols - 1)
+    for w in ws:
+        total = total + w
+    post(exe, s2, z3.Implies(z3.Not(vert.e), z3.ULE(total, width.e)), f.name,
+         "side by side: column widths plus separators fit the table width")
+    for k in range(ncols):
+        post(exe, s2, z3.Implies(z3.Not(vert.e), z3.UGE(ws[k], col_min[k])), f.name,
+             "side by side: column %d keeps at least its minimum width" % k)
+        post(exe, s2, z3.Implies(z3.Not(vert.e), z3.ULE(ws[k], col_size[k])), f.name,
+             "side by side: column %d is not wider than its content" % k)
+        post(exe, s2, z3.Implies(vert.e, ws[k] == width.e), f.name, "stacked: every cell gets the full width")
+    # a cell that has content (and a non-zero minimum width) keeps some width, whatever its colspan
+    for (ri, ci, span, size, minw) in cells_meta:
+        start = sum(shape[ri][:ci])
+        tot_w = u64(0)
+        for k in range(start, start + span):
+            tot_w = tot_w + ws[k]
+        post(exe, s2, z3.Implies(z3.And(z3.Not(vert.e), size.e != 0, minw.e != 0), tot_w != 0), f.name,
+             "side by side: cell r%dc%d with content (colspan %d) keeps some width" % (ri, ci, span))
+
+
+def spec_table_alloc_2(ctx, make_exe):
+    return _run_table(ctx, make_exe, [[1, 1]], 4, 8, _post_table)
+
+
+def spec_table_alloc_3(ctx, make_exe):
+    return _run_table(ctx, make_exe, [[1, 1, 1]], 3, 8, _post_table)
+
+
+def spec_table_alloc_span(ctx, make_exe):
+    return _run_table(ctx, make_exe, [[2], [1, 1]], 3, 6, _post_table)
+
+
+def replay_table_alloc(fd, vals, info):
+    # harness draws: width raw nrows; per row ncells; per cell span size min  (fixed shape encoded by name)
+    shape = eval(info.get("shape", "[[1,1]]"))
+    v = [le_bytes(int(vals.get("width", 0)), 8), [1 if vals.get("raw") else 0], [len(shape)]]
+    for ri, row in enumerate(shape):
+        v.append([len(row)])
+        for ci, span in enumerate(row):
+            v += [le_bytes(span, 8), le_bytes(int(vals.get("r%dc%d.size" % (ri, ci), 0)), 8),
+                  le_bytes(int(vals.get("r%dc%d.min" % (ri, ci), 0)), 8)]
+    return {"harness": "m_table_alloc", "values": v}
+
+# ----------------------------------------------------------------------------
+# SPEC: width 0 is rejected before anything is rendered (RenderTree::render_with_context)
+# ----------------------------------------------------------------------------
+
+def spec_width_zero(ctx, make_exe):
+    f = the(ctx.find(r"::render_with_context$", debug=["width", "context", "decorator"]), "RenderTree::render_with_context")
+    exe = make_exe()
+    st = State()
+    width = exe.fresh("usize", "width")
+    st.pc.append(width.e == 0)
+    outs = exe.run(f.name, {3: width}, st)
+    for (s2, ret) in outs:
+        ok = isinstance(ret, VAgg) and ret.variant == "Err" and ret.fields and isinstance(ret.fields[0], VAgg) \
+            and ret.fields[0].variant == "TooNarrow"
+        post(exe, s2, z3.BoolVal(bool(ok)), f.name, "width 0 returns Err(TooNarrow)")
+        made = [c for c in s2.calls if re.search(r"SubRenderer::<.*>::new$|render_tree_to_string", c[0])]
+        post(exe, s2, z3.BoolVal(not made), f.name, "width 0 is rejected before any renderer is built")
+    if not outs:
+        raise Inconclusive("no path returned")
+    return {"function": f.name, "paths": len(outs)}
+
+
+def replay_width_zero(fd, vals, info):
+    flags = []
+    for k in sorted(vals):
+        pass
+    # harness draws: allow_overflow raw pad min_wrap_width   (any values: try the all-true corner)
+    return {"harness": "m_width_zero", "values": [[1], [1], [1], le_bytes(0, 8)]}
+
+
+# ----------------------------------------------------------------------------
+# SPEC: ordered-list numbering: estimate and render arm agree, no overflow
+# ----------------------------------------------------------------------------
+
+def _ol_slice(ctx, exe, f, start_local, n_value, st):
+    """Run the blocks of `f` that compute max_number from (start, num_items); returns [(state, max_number)]."""
+    mx_local = int(f.debug["max_number"][1:])
+    # entry: block containing the cast `num_items as i64`
+    entry = None
+    nl = int(f.debug["num_items"][1:])
+    for name in f.order:
+        raw = " ".join(f.blocks[name].raw)
+        if re.search(r"= (?:copy|move) _%d as i64 \(IntToInt\)" % nl, raw) or \
+           re.search(r"_(\d+) = copy _%d;\s*_\d+ = move _\1 as i64 \(IntToInt\)" % nl, raw):
+            if not f.blocks[name].cleanup:
+                entry = name
+                break
+    if entry is None:
+        raise Inconclusive("could not find the `num_items as i64` cast in %s" % f.name)
+    # stop at the first block (after entry) whose statements read max_number
+    stop = set()
+    for name in f.order:
+        raw = " ".join(f.blocks[name].raw)
+        if name != entry and re.search(r"(copy|move) _%d\b" % mx_local, raw):
+            stop.add(name)
+    outs = exe.run(f.name, {}, st, entry=entry, env_overrides={start_local: None}, stop_at=stop)
+    return outs, mx_local, entry
+
+
+def spec_ol_numbering(ctx, make_exe):
+    est = the(ctx.find(r"^calc_ol_prefix_size$", debug=["start", "num_items", "max_number"]), "calc_ol_prefix_size")
+    ren = the(ctx.find(r"^do_render_node$", debug=["start", "num_items", "max_number"]), "do_render_node (Ol arm)")
+    results = []
+    exe = make_exe(loop_bound=4)
+    start = exe.fresh("i64", "start")
+    items = exe.fresh("usize", "num_items")
+    values = {}
+    for f in (est, ren):
+        st = State()
+        st.pc.append(z3.ULE(items.e, u64(1 << 32)))
+        sl = int(f.debug["start"][1:])
+        nl = int(f.debug["num_items"][1:])
+        ml = int(f.debug["max_number"][1:])
+        entry = None
+        for name in f.order:
+            raw = " ".join(f.blocks[name].raw)
+            if re.search(r"_%d as i64 \(IntToInt\)" % nl, raw) or re.search(r"_(\d+) = copy _%d;.*move _\1 as i64 \(IntToInt\)" % nl, raw):
+                if not f.blocks[name].cleanup:
+                    entry = name
+                    break
+        if entry is None:
+            raise Inconclusive("no `num_items as i64` in %s" % f.name)
+        stop = set(n for n in f.order if n != entry and re.search(r"(copy|move) _%d\b" % ml, " ".join(f.blocks[n].raw)))
+        outs = exe.run(f.name, {}, st, entry=entry, env_overrides={sl: start, nl: items}, stop_at=stop)
+        got = []
+        for (s2, ret) in outs:
+            if isinstance(ret, tuple) and ret[0] == "stopped":
+                mv = s2.frames[ret[2]].get(ml)
+                if isinstance(mv, VInt):
+                    got.append((s2, mv))
+        if not got:
+            raise Inconclusive("max_number not computed on any path of %s" % f.name)
+        values[f.name] = got
+        # reference: start + items - 1, saturating at the i64 range
+        for (s2, mv) in got:
+            wide = z3.SignExt(64, start.e) + z3.ZeroExt(64, items.e) - 1
+            mx = z3.BitVecVal((1 << 63) - 1, 128)
+            mn = z3.BitVecVal(-(1 << 63), 128)
+            sat = z3.If(wide > mx, mx, z3.If(wide < mn, mn, wide))
+            post(exe, s2, z3.SignExt(64, mv.e) == sat, f.name,
+                 "last item number = start + items - 1 (saturating), in %s" % ("the size estimate" if f is est else "the render arm"))
+    return {"functions": [est.name, ren.name]}
+
+
+def replay_ol(fd, vals, info):
+    return {"harness": "m_ol_numbering", "values": [le_bytes(int(vals.get("start", 0)), 8), le_bytes(min(int(vals.get("num_items", 0)), 40), 8)]}
+
+
+# ----------------------------------------------------------------------------
+# SPEC: insert_child puts a marker first / last in every container kind
+# ----------------------------------------------------------------------------
+
+def spec_insert_child(ctx, make_exe):
+    f = the(ctx.find(r"^insert_child$", debug=["new_child", "orig", "position"]), "insert_child")
+    kinds = ["Block", "ListItem", "Dd", "Dt", "Dl", "Div", "BlockQuote", "Container", "TableCell", "TableRow", "TableBody",
+             "Table", "Text", "Em", "Ul", "Header", "Link", "Break"]
+    total = 0
+    for kind in kinds:
+        for pos in ("Start", "End"):
+            exe = make_exe(inline=[r"RenderNode::new$"])
+            st = State()
+            c0 = VOpaque("RenderNode", "child0")
+            c1 = VOpaque("RenderNode", "child1")
+            marker = VOpaque("RenderNode", "marker")
+            kids = VVec([c0, c1])
+
+            def cell(content):
+                return _agg(ctx, "RenderTableCell", content=content, colspan=VInt(u64(1), 64, False))
+
+            def row(cells):
+                return _agg(ctx, "RenderTableRow", cells=VVec(cells))
+            if kind in ("Block", "ListItem", "Dd", "Dt", "Dl", "Div", "BlockQuote", "Container", "Em", "Ul"):
+                info = VAgg("RenderNodeInfo::" + kind, kind, [kids])
+            elif kind == "Header":
+                info = VAgg("RenderNodeInfo::Header", kind, [VInt(u64(1), 64, False), kids])
+            elif kind == "Link":
+                info = VAgg("RenderNodeInfo::Link", kind, [VOpaque("String", "href"), kids])
+            elif kind == "Text":
+                info = VAgg("RenderNodeInfo::Text", kind, [VOpaque("String", "text")])
+            elif kind == "Break":
+                info = VAgg("RenderNodeInfo::Break", kind, [])
+            elif kind == "TableCell":
+                info = VAgg("RenderNodeInfo::TableCell", kind, [cell(kids)])
+            elif kind == "TableRow":
+                info = VAgg("RenderNodeInfo::TableRow", kind, [row([cell(kids), cell(VVec([VOpaque("RenderNode", "other")]))]), VBool(z3.BoolVal(False))])
+            elif kind == "TableBody":
+                info = VAgg("RenderNodeInfo::TableBody", kind, [VVec([row([cell(kids)])])])
+            elif kind == "Table":
+                info = VAgg("RenderNodeInfo::Table", kind, [_agg(ctx, "RenderTable", rows=VVec([row([cell(kids)])]))])
+            orig = _agg(ctx, "RenderNode", info=info)
+            position = VAgg("ChildPosition::" + pos, pos, [])
+            outs = exe.run(f.name, {1: marker, 2: orig, 3: position}, st)
+            total += len(outs)
+            for (s2, ret) in outs:
+                seq = _flatten_nodes(ctx, ret)
+                want = (["marker", "child0", "child1"] if pos == "Start" else ["child0", "child1", "marker"])
+                if kind in ("Text", "Break"):
+                    want = ["marker", "ORIG"] if pos == "Start" else ["ORIG", "marker"]
+                got = [x for x in seq if x in ("marker", "child0", "child1", "ORIG")]
+                post(exe, s2, z3.BoolVal(got == want), f.name,
+                     "insert_child(%s, %s): marker is %s and no child is lost or reordered (got %s)" % (kind, pos, "first" if pos == "Start" else "last", got))
+    return {"function": f.name, "paths": total}
+
+
+def _flatten_nodes(ctx, v, depth=0):
+    """Pre-order names of opaque RenderNodes reachable in a value."""
+    out = []
+    if depth > 12:
+        return out
+    if isinstance(v, VOpaque):
+        if v.ty == "RenderNode":
+            out.append(v.name)
+        return out
+    if isinstance(v, VAgg):
+        if v.path == "RenderNode" and v.names:
+            info = v.fields[v.names.index("info")]
+            if isinstance(info, VAgg) and info.variant in ("Text", "Break"):
+                return ["ORIG"]
+        for fl in v.fields:
+            out += _flatten_nodes(ctx, fl, depth + 1)
+        return out
+    if isinstance(v, VVec):
+        for e in v.elems:
+            out += _flatten_nodes(ctx, e, depth + 1)
+    return out
+
+# ----------------------------------------------------------------------------
+# SPEC: style push / unwind symmetry and ordering (annotations do not leak)
+# ----------------------------------------------------------------------------
+
+def _call_names(st, pattern):
+    return [re.search(pattern, c[0]).group(1) for c in st.calls if re.search(pattern, c[0])]
+
+
+def spec_style_unwind(ctx, make_exe):
+    """PushedStyleInfo::apply pushes colour, background, white-space, preformat according to the style;
+    unwind pops exactly what was pushed, background before colour (reverse nesting)."""
+    ap = the(ctx.find(r"::apply$", debug=["render", "style", "result"]), "PushedStyleInfo::apply")
+    un = the(ctx.find(r"::unwind$", debug=["self", "renderer"]), "PushedStyleInfo::unwind")
+    names = ctx.structs["PushedStyleInfo"]
+    total = 0
+    # --- unwind: flags symbolic -------------------------------------------------------------
+    exe = make_exe()
+    st = State()
+    flags = {n: exe.fresh("bool", "pushed." + n) for n in names}
+    info = VAgg("PushedStyleInfo", None, [flags[n] for n in names], names)
+    outs = exe.run(un.name, {1: info, 2: VRef("val", VOpaque("TextRenderer<D>", "renderer"))}, st)
+    total += len(outs)
+    for (s2, ret) in outs:
+        pops = _call_names(s2, r"as Renderer>::(pop_\w+)$")
+        want_map = {"colour": "pop_colour", "bgcolour": "pop_bgcolour", "white_space": "pop_ws", "preformat": "pop_preformat"}
+        for n in names:
+            present = want_map[n] in pops
+            post(exe, s2, flags[n].e == z3.BoolVal(present), un.name, "unwind pops %s exactly when it was pushed" % n)
+        post(exe, s2, z3.BoolVal(len(pops) == len(set(pops))), un.name, "nothing is popped twice")
+        if "pop_colour" in pops and "pop_bgcolour" in pops:
+            post(exe, s2, z3.BoolVal(pops.index("pop_bgcolour") < pops.index("pop_colour")), un.name,
+                 "the background colour (pushed last) is popped before the colour")
+    # --- apply: which pushes happen, in which order, and the returned flags --------------------
+    exe2 = make_exe(inline=[r"<PushedStyleInfo as Default>::default$"])
+    st = State()
+    outs = exe2.run(ap.name, {1: VRef("val", VOpaque("TextRenderer<D>", "renderer")), 2: VRef("val", VOpaque("ComputedStyle", "style"))}, st)
+    total += len(outs)
+    for (s2, ret) in outs:
+        pushes = _call_names(s2, r"as Renderer>::(push_\w+)$")
+        if not isinstance(ret, VAgg):
+            raise Inconclusive("apply did not return a struct")
+        got = {n: ret.fields[names.index(n)] for n in names}
+        want_map = {"colour": "push_colour", "bgcolour": "push_bgcolour", "white_space": "push_ws", "preformat": "push_preformat"}
+        for n in names:
+            fl = got[n]
+            if not isinstance(fl, VBool):
+                raise Inconclusive("flag %s is not boolean" % n)
+            post(exe2, s2, fl.e == z3.BoolVal(want_map[n] in pushes), ap.name,
+                 "apply records %s exactly when it pushed it" % n)
+        if "push_colour" in pushes and "push_bgcolour" in pushes:
+            post(exe2, s2, z3.BoolVal(pushes.index("push_colour") < pushes.index("push_bgcolour")), ap.name,
+                 "colour is pushed before (outside) the background colour")
+        post(exe2, s2, z3.BoolVal(len(pushes) == len(set(pushes))), ap.name, "nothing is pushed twice")
+    return {"functions": [ap.name, un.name], "paths": total}
+
+
+def spec_cell_unwind_order(ctx, make_exe):
+    """A table cell's style is unwound on the cell's own renderer, i.e. before that renderer is popped."""
+    f = the(ctx.find(r"^render_table_cell::\{closure#0\}$"), "render_table_cell closure")
+    exe = make_exe()
+    outs = exe.run(f.name, {}, State())
+    for (s2, ret) in outs:
+        seq = [c[0] for c in s2.calls]
+        iu = [i for i, c in enumerate(seq) if re.search(r"PushedStyleInfo::unwind", c)]
+        ip = [i for i, c in enumerate(seq) if re.search(r"TextRenderer::<\w+>::pop$", c)]
+        post(exe, s2, z3.BoolVal(len(iu) == 1 and len(ip) == 1), f.name, "the cell's style is unwound once and its renderer popped once")
+        if iu and ip:
+            post(exe, s2, z3.BoolVal(iu[0] < ip[0]), f.name, "style is unwound before the cell's renderer is popped")
+    if not outs:
+        raise Inconclusive("no path")
+    return {"function": f.name, "paths": len(outs)}
+
+
+# ----------------------------------------------------------------------------
+# SPEC: every public route hands the caller's width and a fresh context to render_with_context
+# ----------------------------------------------------------------------------
+
+def spec_routes_width(ctx, make_exe):
+    total = 0
+    fnames = []
+    for meth in ("render_to_string", "render_to_lines", "string_from_read", "lines_from_read"):
+        f = the(ctx.find(r"config::<impl at [^>]*>::%s$" % meth, debug=["self", "width"]), "Config::" + meth)
+        fnames.append(f.name)
+        wl = int(f.debug["width"][1:])
+        exe = make_exe()
+        st = State()
+        width = exe.fresh("usize", "width")
+        import summaries
+        orig = summaries.summarize
+
+        def summ(exe_, st_, f_, bb_, callee, args, dest_ty):
+            if re.search(r" as Try>::branch$", callee.strip()) and isinstance(args[0], VOpaque):
+                # follow the success path of `?`
+                m = re.match(r"std::result::Result<(.*), [^,]*>$", args[0].ty.strip())
+                return [(st_, VAgg("ControlFlow::Continue", "Continue", [exe_.fresh(m.group(1) if m else "?", args[0].name + ".ok", st_)]))]
+            return orig(exe_, st_, f_, bb_, callee, args, dest_ty)
+        summaries.summarize = summ
+        try:
+            outs = exe.run(f.name, {wl: width}, st)
+        finally:
+            summaries.summarize = orig
+        total += len(outs)
+        seen = 0
+        for (s2, ret) in outs:
+            calls = [c for c in s2.calls if re.search(r"RenderTree::render_with_context", c[0])]
+            post(exe, s2, z3.BoolVal(len(calls) == 1), f.name, "%s renders through render_with_context exactly once" % meth)
+            for (_, cargs, _, _) in calls:
+                seen += 1
+                w = cargs[2]
+                if not isinstance(w, VInt):
+                    raise Inconclusive("width argument is not an integer")
+                post(exe, s2, w.e == width.e, f.name, "%s renders at exactly the caller's width" % meth)
+            mk = [c for c in s2.calls if re.search(r"::make_context$", c[0])]
+            post(exe, s2, z3.BoolVal(len(mk) == 1), f.name, "%s builds its context with make_context" % meth)
+        if not seen:
+            raise Inconclusive("render_with_context not reached in %s" % meth)
+    return {"functions": fnames, "paths": total}
+
+
 ALL = [
     Spec("table_col_width", ["C06", "C02", "C01"], spec_table_col_width,
          functions=["render_table_tree::{closure} |sz| (column width formula)"],
@@ -519,4 +980,42 @@ ALL = [
          assumptions=["cells are models: colspan symbolic, content/style opaque; Vec / IntoIter / slice sum by contract over vectors of concrete length",
                       "stacked layout: all column widths equal the table width (as render_table_tree sets them)"],
          replay=replay_into_cells),
+    Spec("width_zero", ["C11", "C01"], spec_width_zero,
+         functions=["RenderTree::render_with_context (entry)"], bounds="width = 0, everything else arbitrary",
+         assumptions=["calls made after the guard are unconstrained (they must not be reached)"], replay=replay_width_zero),
+    Spec("ol_numbering", ["C07", "C01"], spec_ol_numbering,
+         functions=["calc_ol_prefix_size (max_number computation)", "do_render_node Ol arm (max_number computation)"],
+         bounds="start any i64, num_items <= 2^32",
+         assumptions=["only the integer slice that computes the last item number is executed; decorator calls are outside"],
+         replay=replay_ol),
+    Spec("insert_child", ["C14", "C03"], spec_insert_child,
+         functions=["insert_child", "RenderNode::new (inlined)"],
+         bounds="18 node kinds x {Start, End}; containers hold two opaque children; table kinds hold one row / cell",
+         assumptions=["children are opaque nodes (identity tracked by name)", "Vec::insert / push by contract"]),
+    Spec("style_unwind", ["C09"], spec_style_unwind,
+         functions=["PushedStyleInfo::apply", "PushedStyleInfo::unwind"],
+         bounds="every combination of colour / background / white-space / preformat (style opaque, flags symbolic)",
+         assumptions=["renderer push_/pop_ calls are observed (call order and presence), not executed"]),
+    Spec("cell_unwind_order", ["C09"], spec_cell_unwind_order,
+         functions=["render_table_cell::{closure#0}"], bounds="all paths of the closure",
+         assumptions=["calls are observed, not executed"]),
+    Spec("routes_width", ["C10"], spec_routes_width,
+         functions=["Config::render_to_string", "Config::render_to_lines", "Config::string_from_read", "Config::lines_from_read"],
+         bounds="any width; success path of every `?`",
+         assumptions=["callees are observed (arguments captured), not executed"]),
+    Spec("table_alloc_2col", ["C06", "C02", "C05", "C01"], spec_table_alloc_2,
+         functions=["render_table_tree (whole function incl. estimate loop, allocation closures, shrink loop)",
+                    "RenderTable::rows", "RenderTableRow::cells", "RenderTableCell::get_size_estimate", "SizeEstimate::max",
+                    "render_table_tree::{closure#0..5}", "<SubRenderer as Renderer>::width"],
+         bounds="1 row x 2 columns; cell size <= 4, min_width <= size, table width <= 8; raw and border flags symbolic",
+         assumptions=["cell size estimates are preset symbolic values", "start_block / add_horizontal_border_width succeed",
+                      "into_rows is observed (arguments captured), not executed", "iterator adaptors by contract over vectors of concrete length"],
+         replay=replay_table_alloc),
+    Spec("table_alloc_3col", ["C06", "C02", "C01"], spec_table_alloc_3, tier="thorough",
+         functions=["render_table_tree (whole function)"],
+         bounds="1 row x 3 columns; cell size <= 3, table width <= 8", assumptions=["as table_alloc_2col"], replay=replay_table_alloc),
+    Spec("table_alloc_colspan", ["C06", "C03", "C01"], spec_table_alloc_span, tier="thorough",
+         functions=["render_table_tree (whole function)"],
+         bounds="2 rows over 2 columns, first row is one colspan=2 cell; cell size <= 3, table width <= 6",
+         assumptions=["as table_alloc_2col"], replay=replay_table_alloc),
 ]
